@@ -57,13 +57,13 @@ CHECKS = {
          "Every square x every pair of the 13 contents, every kind x every pair of squares, both sides, all step pairs, all C(641,2) pairs of push/pull statuses, in three board contexts: all transposition hashes pairwise different. The domain is finite and enumerated completely.",
          "none.", "DESIGN.md §4 C17"),
  "C18": ("type checker for Send+Sync, then loom: exhaustive exploration of all thread interleavings (within a preemption bound) of real engine code on a token-substituted copy",
-         "Stage A: 14 public types are Send + Sync (compile-time). Stage B: four harness bodies (concurrent expansion of shared states with a 5-turn history incl. passes and 4th steps that append to the shared history; divergent play on a shared tail with different drop orders; hand-over through a mutex; concurrent drops of lists sharing a tail) are explored by loom over every interleaving within the bound; each thread's result fingerprints must equal the sequential ones; loom also reports leaked/double-freed Arcs and deadlocks. E1/E2 additionally fingerprint every state before and after expansion (never modified after construction).",
+         "Stage A: 14 public types are Send + Sync (compile-time). Stage B: five harness bodies (concurrent expansion of never-before-queried shared states with a 5-turn history incl. pushes, pulls, passes and 4th steps that append to the shared history; divergent play on a shared tail with different drop orders; hand-over through a mutex; concurrent drops of lists sharing a tail; a shared state whose pass is withheld as a third repetition) are explored by loom over every interleaving within the bound; each thread's result fingerprints must equal the sequential ones; loom also reports leaked/double-freed Arcs and deadlocks. E1/E2 additionally fingerprint every state before and after expansion (never modified after construction). Stage C (auxiliary, sampled schedules, labelled so): the same scenarios with std threads under Miri's data-race detector, for unsynchronised state (Cell/UnsafeCell behind unsafe impl Sync, static mut) that the substitution cannot reach.",
          "loom sees only primitives reached by the std::sync/std::thread token substitution (site count in evidence); vendor/loom carries a mock of Arc::into_inner; preemption bound as listed per body.", "DESIGN.md §3.6, §4 C18"),
  "C19": ("explicit-state exploration with every named query under catch_unwind, overflow checks on",
          "On every state of E1/E2/E3 every query named in the statement and take_action of every offered action is executed under catch_unwind in a build with overflow-checks=true; any unwind is a violation.",
          "Queries outside their documented phase are not called.", "DESIGN.md §4 C19"),
- "C20": ("enumeration of a grid of child processes (profile x stack size x ownership shape x history length) with exit status as oracle",
-         "Child processes play a deterministic capture-free, repetition-free game of N turns (every action taken from valid_actions()) or build a synthetic history of N nodes, then clone, query and drop it in five ownership shapes on threads of 2 MiB and 256 KiB, in release and dev builds; N up to 1e6 (thorough 4e6 synthetic, 1e5 played). A stack overflow kills the child; any non-zero exit is a violation.",
+ "C20": ("enumeration of a grid of child processes (profile x stack size x ownership shape x history length) with exit status as oracle, plus loom exploration of every interleaving of concurrent drops with a stack-depth probe",
+         "Child processes play a deterministic capture-free, repetition-free game of N turns (every action taken from valid_actions()) or build a synthetic history of N nodes, then clone, query and drop it in five ownership shapes on threads of 2 MiB and 256 KiB, in release and dev builds; N up to 1e6 (thorough 4e6 synthetic, 1e5 played). A stack overflow kills the child; any non-zero exit is a violation. Because the drop of a shared history races between owners, loom body B6 additionally explores every interleaving of 2-3 (thorough 4) owners dropping lists that share a 300-node tail, with a probe in each element's Drop that bounds the stack used below the drop call (4096 bytes; the iterative drop needs ~150).",
          "Monotonicity of recursion depth in N; lengths beyond the ladder are covered only through the 256 KiB row's per-node bound.", "DESIGN.md §4 C20"),
 }
 TODO = {}
